@@ -79,7 +79,7 @@ class EconomicsCalculate(Contract):
     property_ids = ("C03", "C04", "C16")
     params = dict(self=ObjAt("model.economics"), model=ObjAt("model"))
     result = None
-    sizes = (2, 3)
+    sizes = (2, (3, 2), 3)
     inline_callees = ("geophires_x/Economics.py::Economics._calculate_derived_outputs",)
     assumptions = (
         "Economics.Calculate: add-on and S-DAC-GT sub-calculations are switched off in these units "
@@ -121,6 +121,9 @@ class EconomicsCalculate(Contract):
         from geophires_x.OptionList import EconomicModel
         from geophires_x.Units import LengthUnit
         size = cfg.get("_size")
+        cy_b = 1
+        if isinstance(size, tuple):       # bounded refutation instance: (lifetime, construction years)
+            size, cy_b = size
         nd = NdOf("real", n=size)
         h = {"model.surfaceplant.enduse_option.value": cfg["_enduse"],
              "model.surfaceplant.plant_type.value": cfg["_plant"],
@@ -128,7 +131,7 @@ class EconomicsCalculate(Contract):
              "model.economics.DoAddOnCalculations.value": False,
              "model.economics.DoSDACGTCalculations.value": False,
              "model.surfaceplant.plant_lifetime.value": size if size is not None else Int,
-             "model.surfaceplant.construction_years.value": 1 if size is not None else Int,
+             "model.surfaceplant.construction_years.value": cy_b if size is not None else Int,
              "model.economics.PTCDuration.value": 1 if size is not None else Int,
              "model.reserv.depth.CurrentUnits": LengthUnit.METERS,
              "model.economics.CarbonThatWouldHaveBeenProducedAnnually.value": ListOf("real"),
